@@ -73,11 +73,15 @@ def stub_association(max_pdu_length):
     return a
 
 
-def send_via_association(msg, pc, max_pdu_length):
-    """the real Association.send; returns the list of P-DATA-TF PDU objects handed to the provider"""
+def send_via_association(msg, pc, max_pdu_length, after=None):
+    """the real Association.send; returns the list of P-DATA-TF PDU objects handed to the provider.  `after(msg)` runs
+    between send() returning and the provider consuming what was queued - where a provider thread would be slow and
+    the application already re-uses the message object"""
     a = stub_association(max_pdu_length)
     a.send(msg, pc)
     assert len(a.dul.sent) == 1
+    if after is not None:
+        after(msg)
     return list(a.dul.sent[0])
 
 
